@@ -66,14 +66,9 @@ GapperFormulaOK(o, a) ==
         tol == IF ZLt(hi, FxOne) THEN Tol9 ELSE FxMul(Tol9, hi)
     IN ZLe(ZSub(lo, tol), o) /\ ZLe(o, ZAdd(hi, tol))
 (* weighted median: any m with weight(x<m) <= W/2 and weight(x>m) <= W/2; the midpoint of the two middle values *)
-(* when the half-weight point falls exactly between them.  Where zero-weight data lie on or between the two,    *)
-(* "the two middle values" is ambiguous (is a weightless value a middle value?) and any candidate of             *)
-(* Stats.WMedianCandidates is accepted -- all of them satisfy the characterisation.                              *)
-WMedMidpointOK(o, a, w) ==
-    LET b == WMedianBounds(a, w) IN
-    IF b[1] = b[2] THEN FxEq(o, b[1])
-    ELSE IF \A i \in 1..Len(a) : ~(ZIsZero(w[i]) /\ ZLe(b[1], a[i]) /\ ZLe(a[i], b[2])) THEN FxEq(o, FxMid(b[1], b[2]))
-    ELSE \E m \in WMedianCandidates(a, w) : FxEq(o, m)
+(* when the half-weight point falls exactly between them (Stats.WMedianCandidates: a single value unless zero-    *)
+(* weight data make "the two middle values" ambiguous)                                                            *)
+WMedMidpointOK(o, a, w) == \E m \in WMedianCandidates(a, w) : FxEq(o, m)
 
 ModeShiftOK(r) ==
     LET t == FxSortAsc(Xs(r))
